@@ -60,14 +60,18 @@ type c16Obs struct {
 	name   string
 	addr   ma.Multiaddr
 	sameIP string // an IP literal equal to the observed IP (or just some public IP when the observed address has none)
+	// limited: what the connection's Stat() says (a relayed connection through a relay that applies limits). A relay
+	// run WithInfiniteLimits hands out connections that are relayed but NOT limited.
+	limited bool
 }
 
 func c16Observed(ids *c16IDs) []c16Obs {
 	return []c16Obs{
-		{"ip4-tcp", ma.StringCast("/ip4/1.2.3.4/tcp/30001"), "1.2.3.4"},
-		{"ip6-quic", ma.StringCast("/ip6/2604:1380:4601:3a00::5/udp/30001/quic-v1"), "2604:1380:4601:3a00::5"},
-		{"relayed", ma.StringCast("/ip4/7.7.7.7/tcp/4001/p2p/" + ids.relay.id.String() + "/p2p-circuit"), "7.7.7.7"},
-		{"no-ip(dns)", ma.StringCast("/dns4/client.example.net/tcp/443/ws"), "1.2.3.4"},
+		{"ip4-tcp", ma.StringCast("/ip4/1.2.3.4/tcp/30001"), "1.2.3.4", false},
+		{"ip6-quic", ma.StringCast("/ip6/2604:1380:4601:3a00::5/udp/30001/quic-v1"), "2604:1380:4601:3a00::5", false},
+		{"relayed", ma.StringCast("/ip4/7.7.7.7/tcp/4001/p2p/" + ids.relay.id.String() + "/p2p-circuit"), "7.7.7.7", true},
+		{"no-ip(dns)", ma.StringCast("/dns4/client.example.net/tcp/443/ws"), "1.2.3.4", false},
+		{"relayed-unlimited", ma.StringCast("/ip4/7.7.7.7/tcp/4001/p2p/" + ids.relay.id.String() + "/p2p-circuit"), "7.7.7.7", false},
 	}
 }
 
@@ -485,7 +489,7 @@ func c16Start(e *c16Env, ids *c16IDs, obs []c16Obs, rq c16Req) *c16Running {
 			o.req.Addrs = append(o.req.Addrs, fmt.Sprintf("bytes:%x", a))
 		}
 	}
-	cli, srvS := c16NewStreamPair(true, &c16ReqConn{localPeer: ids.other.id, remotePeer: requester.id, remoteAddr: ob.addr})
+	cli, srvS := c16NewStreamPair(true, &c16ReqConn{localPeer: ids.other.id, remotePeer: requester.id, remoteAddr: ob.addr, limited: ob.limited})
 	e.mu.Lock()
 	o.stream = len(e.streams)
 	e.streams = append(e.streams, srvS)
@@ -923,9 +927,9 @@ func c16Baseline(o *c16Outcome, dials []c16Dial, backs []c16DialBack, dialOK boo
 	if resp == nil || resp.Status != pb.DialResponse_OK || len(dials) != 1 || resp.AddrIdx != 0 {
 		return fmt.Sprintf("honest request %v: expected OK and one dial, got %s with %d dials", o.req.Addrs, c16ShowMsgs(o.msgs), len(dials))
 	}
-	// (observed address 2 is a relayed connection: its IP is the relay's, so "same-ip" is not the IP the request came from
+	// (observed addresses 2 and 4 are relayed connections: its IP is the relay's, so "same-ip" is not the IP the request came from
 	// and dial data is expected for every address; observed address 3 has no IP at all)
-	wantData := first == c16Foreign || o.req.Obs == 2
+	wantData := first == c16Foreign || o.req.Obs == 2 || o.req.Obs == 4
 	if wantData != (o.ddr() != nil) && o.req.Obs != 3 {
 		return fmt.Sprintf("honest request %v: dial data asked=%v", o.req.Addrs, o.ddr() != nil)
 	}
@@ -1017,7 +1021,7 @@ func c16Server(t *testing.T) {
 			addLists(ob, c16Lists(ext, 3), allBeh)
 		}
 		addLists(0, c16Lists(base, 4), allBeh)
-		r.Bounds["address_lists"] = "observed ip4-tcp, ip6-quic, relayed, no-ip: every list of length 0..3 over 16 classes; plus length 4 over the 6 base classes (observed ip4-tcp); plus 7 lists of 50/51 entries"
+		r.Bounds["address_lists"] = "observed ip4-tcp, ip6-quic, relayed (limited / through a relay without limits), no-ip: every list of length 0..3 over 16 classes; plus length 4 over the 6 base classes (observed ip4-tcp); plus 7 lists of 50/51 entries"
 	} else {
 		addLists(0, c16Lists(base, 3), allBeh)
 		addLists(0, c16Lists(ext, 2), allBeh)
@@ -1025,7 +1029,7 @@ func c16Server(t *testing.T) {
 			addLists(ob, c16Lists(base, 2), allBeh)
 			addLists(ob, c16Lists(ext, 1), allBeh)
 		}
-		r.Bounds["address_lists"] = "observed ip4-tcp: every list of length 0..3 over 6 base classes and 0..2 over 16 classes; observed ip6-quic, relayed, no-ip: length 0..2 over 6 classes, 0..1 over 16; plus 7 lists of 50/51 entries"
+		r.Bounds["address_lists"] = "observed ip4-tcp: every list of length 0..3 over 6 base classes and 0..2 over 16 classes; observed ip6-quic, relayed (limited / through a relay without limits), no-ip: length 0..2 over 6 classes, 0..1 over 16; plus 7 lists of 50/51 entries"
 	}
 	for _, lk := range c16LongKinds {
 		for _, ok := range []bool{false, true} {
